@@ -179,6 +179,14 @@ def symmetricParallelBoxes (s1 s2 : XShape3) (m1 m2 : Iso3 Rat) : Bool :=
     (ax.all fun e => axisLike (m1.invRot (m2.rot e))) && (small d.x || small d.y || small d.z)
   | _, _ => false
 
+/-- the centre (vertex mean) of one core coincides with a vertex or the centre of the other: a configuration in which support
+points of the configuration-space obstacle are coplanar with faces of EPA's expanding polytope (known EPA finding) -/
+def centreOnVertex3 (A B : RP3 Rat) : Bool :=
+  let ctr (P : RP3 Rat) : V3 Rat := (bound3 P).1
+  let near (p q : V3 Rat) : Bool := vmag (p.sub q) ≤ 1 / 1000000000
+  let one (P Q : RP3 Rat) : Bool := P.vs.length > 1 && (near (ctr P) (ctr Q) || Q.vs.any (near (ctr P)))
+  one A B || one B A
+
 /-- contact of a convex pair against the exact signed separation `sep` (distance when apart, minus the minimum separating
 translation when overlapping) and the overlap `over` along the reported normal (when available) -/
 def judgeExactContact (tag : String) (sep t pred : Rat) (over : V3 Rat → Option Rat) (self : Contact3 Rat → String)
@@ -261,7 +269,7 @@ def handler (fn : String) : Option Handler :=
             match exact with
             | some sep =>
               if sep > t then (if allAre vs false then "pass" else s!"fail verdicts-disagree {pair} exact-separation={sep.toF} got={vs}")
-              else if sep < -t then (if allAre vs true then "pass" else s!"fail verdicts-disagree {pair} exact-overlap={sep.toF} got={vs}")
+              else if sep < -t then (if allAre vs true then "pass" else s!"fail verdicts-disagree {pair} exact-overlap={sep.toF} got={vs} contact-dist={cdist}")
               else "skip near-touching"
             | none =>
               if !FloatIO.isFinite dist then "fail nonfinite-distance" else
@@ -400,6 +408,9 @@ def handler (fn : String) : Option Handler :=
                   | _, _ => none
                 let tag := match G1, G2 with
                   | .conv A Af, .conv B Bf => if roundTouching3 A Af B Bf then tag ++ "[round-cores-touching]" else tag
+                  | _, _ => tag
+                let tag := match G1, G2 with
+                  | .conv A _, .conv B _ => if centreOnVertex3 A B then tag ++ "[centre-on-vertex]" else tag
                   | _, _ => tag
                 judgeExactContact tag sep t (q pred) over (fun c => judgeSelf tag sz S (q pred) c memb)
                   (out.map qcontact))
